@@ -141,6 +141,7 @@ def gen_project(rng, nmax=7, with_deps=True, with_regen=False, with_pools=False)
     outs_all = []
     for i in range(n):
         outs = ["o%d" % i] + (["o%d.x" % i] if rng.random() < 0.2 else [])
+        iouts = ["o%d.side" % i] if rng.random() < 0.2 else []          # an implicit output (`build o | o.side: ...`), written by the command too
         prev = [o for os_ in outs_all for o in os_]
         ex = [rng.choice(sources + prev) for _ in range(rng.randint(1, 2))]
         im = [rng.choice(headers + prev)] if rng.random() < 0.3 else []
@@ -156,9 +157,9 @@ def gen_project(rng, nmax=7, with_deps=True, with_regen=False, with_pools=False)
                 opts.append("depsfrom=%s" % depsrc)
         if rng.random() < 0.15:
             opts.append("restat")
-        builds.append({"outs": outs, "ex": ex, "im": im, "oo": oo, "opts": opts, "tag": "t%d" % i, "msvc": rng.random() < 0.25,
+        builds.append({"outs": outs, "iouts": iouts, "ex": ex, "im": im, "oo": oo, "opts": opts, "tag": "t%d" % i, "msvc": rng.random() < 0.25,
                        "pool": rng.choice(pools)[0] if pools and rng.random() < 0.7 else None})
-        outs_all.append(outs)
+        outs_all.append(outs + iouts)
     # some outputs live in a directory and have dot-less names; consumers may spell them with a doubled separator
     if rng.random() < 0.5:
         ren = {}
@@ -169,6 +170,7 @@ def gen_project(rng, nmax=7, with_deps=True, with_regen=False, with_pools=False)
         if ren:
             for b in builds:
                 b["outs"] = [ren.get(o, o) for o in b["outs"]]
+                b["iouts"] = [ren.get(o, o) for o in b.get("iouts", [])]
                 for k in ("ex", "im", "oo"):
                     b[k] = [ren.get(x, x) for x in b[k]]
             outs_all = [[ren.get(o, o) for o in os_] for os_ in outs_all]
@@ -204,7 +206,8 @@ def manifest_text(info):
         # deterministic per name, so that regenerated manifests keep their spelling: every other gen/ input is written gen//
         return x.replace("gen/", "gen//") if x.startswith("gen/") and sum(map(ord, x)) % 2 == 0 else x
     for b in info["builds"]:
-        l = "build %s: %s %s" % (" ".join(b["outs"]), "rm" if b.get("msvc") else "r", " ".join(sp(x) for x in b["ex"]))
+        l = "build %s%s: %s %s" % (" ".join(b["outs"]), (" | " + " ".join(b["iouts"])) if b.get("iouts") else "",
+                                   "rm" if b.get("msvc") else "r", " ".join(sp(x) for x in b["ex"]))
         if b["im"]:
             l += " | " + " ".join(sp(x) for x in b["im"])
         if b["oo"]:
@@ -328,7 +331,11 @@ def gen_history(rng, nmax=6, with_regen=False, ninv=None, with_pools=False):
                     else:
                         put("build.ninja", text)
                 elif c < 0.9:
-                    steps.append("touch %s" % hx(rng.choice(outs_flat)))
+                    if rng.random() < 0.5:
+                        steps.append("touch %s" % hx(rng.choice(outs_flat)))
+                    else:
+                        o_ = rng.choice(outs_flat)                     # an output (explicit or implicit) overwritten behind n2's back
+                        steps.append("file %s %s" % (hx(o_), hx("garbage %d\n" % rng.randint(0, 999))))
                 elif with_regen and rng.random() < 0.5:
                     # structural edit through the generator's template: toggle an extra step at the front
                     if info["builds"] and info["builds"][0].get("extra"):
@@ -360,6 +367,57 @@ def gen_history(rng, nmax=6, with_regen=False, ninv=None, with_pools=False):
         steps.append(S.inv_cmd(j, k, False, targets, script, manifest=mspell))
         invs.append({"j": j, "k": k, "adopt": False, "targets": targets, "files": dict(files), "nsteps": len(steps), "manifest": mspell})
     return steps, invs, info
+
+
+def gen_history_gendep(rng):
+    """a step whose *reported* dependency is the output of another step it has no declared path to (a generated header that is
+    only discovered): recorded by an earlier run, then generator and an ordering input of the step both dirty, several jobs, any
+    completion order.  Discovered dependencies must not change build order, block, or abort the invocation (C09, C06)."""
+    kind = rng.choice(["|", "||", ""])                 # how the step declares its generated ordering input
+    nextra = rng.randint(0, 2)
+    lines = ["rule r", "  command = cmd $tag $out $opts", "rule rm", "  command = cmd $tag $out $opts", "  deps = msvc"]
+    tags = {"g": "tg0", "p": "tp0", "s": "ts0"}
+    def text():
+        l = list(lines)
+        l += ["build gen.h: r gen.in", "  tag = %s" % tags["g"]]
+        l += ["build p: r p.in", "  tag = %s" % tags["p"]]
+        l += ["build s.o: %s s.c %s p" % (rule, kind) if kind else "build s.o: %s s.c p" % rule, "  tag = %s" % tags["s"], "  opts = depsfrom=s.c"]
+        for i in range(nextra):
+            l += ["build x%d: r %s" % (i, rng.choice(["s.o", "gen.h", "p", "x.in"])), "  tag = x%d" % i]
+        return "\n".join(l) + "\n"
+    rule = rng.choice(["r", "rm"])
+    files, steps = {}, []
+    def put(name, content):
+        files[name] = content
+        steps.append("file %s %s" % (hx(name), hx(content)))
+    put("build.ninja", text())
+    put("s.c", "#include gen.h\n" + ("#include h0.h\n" if rng.random() < 0.5 else "") + "// v0\n")
+    for n in ("gen.in", "p.in", "x.in", "h0.h"):
+        put(n, n + " v0\n")
+    invs = []
+    def inv(j, targets, nscript, fail=0.0):
+        script = S.gen_script(rng, nscript, fail_rate=fail, interrupt_rate=0)
+        steps.append(S.inv_cmd(j, None, False, targets, script))
+        invs.append({"j": j, "k": None, "adopt": False, "targets": targets, "files": dict(files), "nsteps": len(steps), "manifest": None})
+    # first builds: gen.h before s.o (so that the report names an existing file and the step is recorded)
+    inv(1, ["gen.h"], 0)
+    inv(rng.choice([1, 2, 3]), [], rng.randint(0, 4))
+    if rng.random() < 0.5:
+        inv(rng.choice([1, 2]), [], 0)                                         # a null build in between
+    for r in range(rng.randint(1, 3)):
+        # generator and the ordering input's producer both dirty (sometimes only one of them)
+        c = rng.random()
+        if c < 0.7 or r == 0:
+            put("gen.in", "gen.in v%d\n" % rng.randint(1, 999))
+            put("p.in", "p.in v%d\n" % rng.randint(1, 999))
+        elif c < 0.85:
+            put("gen.in", "gen.in v%d\n" % rng.randint(1, 999))
+        else:
+            put("p.in", "p.in v%d\n" % rng.randint(1, 999))
+        if rng.random() < 0.2:
+            put("s.c", "#include gen.h\n// v%d\n" % rng.randint(1, 999))
+        inv(rng.choice([2, 2, 3, 4]), rng.choice([[], [], ["s.o"], ["s.o", "gen.h"]]), rng.randint(0, 6), fail=rng.choice([0, 0, 0.2]))
+    return steps, invs, {"builds": [], "gendep": True}
 
 
 def clean_scenario(meta):
